@@ -10,3 +10,10 @@ NOT_BUILT = "check not built yet at this commit (planned in DESIGN.md §7; not a
 
 NOT_APPLICABLE = {f"C{i:02d}": NOT_BUILT for i in range(1, 21)}
 
+
+# properties whose check exists but is being brought back in line with /repo after other properties' fixes changed the
+# code it models; not claimed until `./check <id>` exits 0 again
+HOLD = {
+    "C03": "check built (10 theorems) but its admission model does not yet mirror the relay-pull cancellation guard added by a later fix (pullingSessionUk); being updated, not claimed at this commit",
+    "C13": "check built (14 theorems) but its PS-unpacker model and site inventory do not yet mirror three later gb28181 fixes; being updated, not claimed at this commit",
+}
